@@ -13,10 +13,11 @@ Names at use sites may be spelled in any letter case; declarations are what they
 """
 import itertools
 
-KINDS = ["var", "type", "proc", "generic", "abs"]
+KINDS = ["var", "type", "proc", "generic", "abs"]      # drawn at random; "iface" only through nested chains
 KLETTER = {"var": "v", "type": "t", "proc": "p", "generic": "g", "abs": "i"}
 CLS = {"var": "CVar", "type": "CType", "proc": "CProc", "generic": "CProc", "abs": "CAbs"}
-COQ_KIND = {"var": "KVar", "type": "KType", "proc": "KProc", "generic": "KGeneric", "abs": "KAbs"}
+COQ_KIND = {"var": "KVar", "type": "KType", "proc": "KProc", "generic": "KGeneric", "abs": "KAbs", "iface": "KProc"}
+COQ_NKIND = {"routine": "NRoutine", "ifbody": "NIfBody", "absbody": "NAbsBody", "genbody": "NGenBody"}
 COQ_PERM = {"public": "Public", "private": "Private", "protected": "Protected"}
 
 
@@ -209,6 +210,8 @@ def gen_graph(rng, knobs=None):
                               "renames": [], "prefix": rng.choice(["intrinsic", "", "intrinsic"])})
         gen_access(rng, units, u, knobs)
         gen_module_refs(rng, units, u)
+        if i and rng.random() < knobs.get("p_nested", 0.0):
+            gen_nested(rng, units, u, forms, knobs)
         units.append(u)
     if knobs.get("program", rng.random() < 0.6):
         units.append(gen_program(rng, units, forms, knobs))
@@ -252,6 +255,116 @@ def gen_module_refs(rng, units, u):
              "perm": "default", "how": None, "ref": {"what": what, "id": n}, "function": False}
         u["decls"].append(d)
     fix_perms(rng, {"default": u["default"], "decls": [d for d in u["decls"] if d["how"] is None]})
+
+
+# ----------------------------------------------------------------------------- nested scopes
+# A node of the nested-scope tree of a module:
+#   {"name", "kind": routine|ifbody|absbody|genbody, "uses": [...], "refs": [{"what": type|procptr|call, "id", "var"}],
+#    "children": [node]}
+# Top-level nodes hang off a declaration of the module (decl["node"]): a module procedure (kind proc),
+# an interface body (kind iface), an abstract interface (kind abs), or the body written inside a generic
+# interface block (decl of kind generic with "body": node; the body's procedure is itself an entry of
+# all_procs and gets its own decl of kind proc with "in_generic").
+CHAINS = ["modproc", "internal", "ifbody_proc", "ifbody_mod", "internal_ifbody", "two_levels",
+          "absint_mod", "generic_body", "absint_proc"]
+
+
+def gen_nested(rng, units, u, forms, knobs):
+    tag = u["name"][-1]
+    mods = [x for x in units if x["unit"] == "module"]
+    shallow = {x["target"].lower() for x in u["uses"]}
+    counter = [100]
+    nforms = [f for f in forms if f in ("plain", "only", "only_rename", "prefix")] or ["plain"]
+    chains = [c for c in CHAINS if knobs.get("regions") or c not in ("absint_mod", "generic_body", "absint_proc")]
+    k = 0
+
+    def pick_target():
+        deep = [m for m in mods if m["name"].lower() not in shallow]
+        pool = deep if (deep and rng.random() < 0.75) else mods
+        return rng.choice(pool)["name"]
+
+    def node(name, kind, with_use=True, nuse=1):
+        nd = {"name": name, "kind": kind, "uses": [], "refs": [], "children": []}
+        if with_use:
+            for _ in range(nuse):
+                nd["uses"] += gen_use(rng, units, pick_target(), rng.choice(nforms), tag + "n", counter, knobs)
+        return nd
+
+    def add_refs(nd, hosts):
+        """references to names the scope obtains from its own USE statements, from its hosts', from the
+        module (host association), and a few names that are not accessible at all"""
+        if nd["kind"] == "routine":
+            pool = dict(guess_imports(units, u))
+            for h in hosts + [nd]:
+                pool.update(guess_imports(units, {"uses": h["uses"]}))
+        else:
+            # an interface body has no host association: legal references are to its own imports
+            pool = dict(guess_imports(units, {"uses": nd["uses"]}))
+        for m in mods:
+            for d in m["decls"]:
+                if rng.random() < 0.1:
+                    pool.setdefault(d["name"].lower(), d["kind"])
+        j = 0
+        for n, kind in sorted(pool.items()):
+            if rng.random() < 0.4 or j >= 5:
+                continue
+            what = {"type": "type", "abs": "procptr", "proc": "call", "generic": "call", "iface": "call"}.get(kind)
+            if what is None or (what == "call" and nd["kind"] != "routine"):
+                continue
+            j += 1
+            nd["refs"].append({"what": what, "id": n, "var": f"w{nd['name']}{j}"})
+
+    for _ in range(rng.choice([1, 1, 2])):
+        k += 1
+        chain = rng.choice(chains)
+        p, q, e = f"n{tag}{k}p", f"n{tag}{k}q", f"n{tag}{k}e"
+        base = {"perm": "default", "how": None, "ref": None, "function": False}
+        if chain == "modproc":
+            top = node(p, "routine"); add_refs(top, [])
+            u["decls"].append(dict(base, name=p, kind="proc", node=top))
+        elif chain in ("internal", "ifbody_proc", "absint_proc", "two_levels"):
+            top = node(p, "routine", with_use=(chain == "two_levels" or rng.random() < 0.3))
+            child = node(q if chain in ("internal", "two_levels") else e,
+                         {"internal": "routine", "two_levels": "routine", "ifbody_proc": "ifbody", "absint_proc": "absbody"}[chain])
+            add_refs(top, []); add_refs(child, [top])
+            top["children"].append(child)
+            u["decls"].append(dict(base, name=p, kind="proc", node=top))
+        elif chain == "internal_ifbody":
+            top = node(p, "routine", with_use=rng.random() < 0.3)
+            mid = node(q, "routine", with_use=rng.random() < 0.5)
+            leaf = node(e, "ifbody")
+            add_refs(top, []); add_refs(mid, [top]); add_refs(leaf, [top, mid])
+            mid["children"].append(leaf); top["children"].append(mid)
+            u["decls"].append(dict(base, name=p, kind="proc", node=top))
+        elif chain == "ifbody_mod":
+            top = node(e, "ifbody"); add_refs(top, [])
+            u["decls"].append(dict(base, name=e, kind="iface", node=top))
+        elif chain == "absint_mod":
+            top = node(e, "absbody"); add_refs(top, [])
+            u["decls"].append(dict(base, name=e, kind="abs", node=top))
+        elif chain == "generic_body":
+            top = node(e, "genbody"); add_refs(top, [])
+            g = f"n{tag}{k}g"
+            u["decls"].append(dict(base, name=g, kind="generic", body=top))
+            u["decls"].append(dict(base, name=e, kind="proc", in_generic=g))
+    fix_perms(rng, {"default": u["default"], "decls": [d for d in u["decls"] if d["how"] is None]})
+
+
+def nested_nodes(u):
+    """flat list of (path, kinds, node) of all nested scopes of a unit, hosts before their children"""
+    out = []
+
+    def walk(nd, path, kinds):
+        path, kinds = path + [nd["name"]], kinds + [nd["kind"]]
+        out.append((path, kinds, nd))
+        for c in nd["children"]:
+            walk(c, path, kinds)
+    for d in u["decls"]:
+        if d.get("node"):
+            walk(d["node"], [], [])
+        if d.get("body"):
+            walk(d["body"], [d["name"]], ["genblock"])
+    return out
 
 
 def gen_program(rng, units, forms, knobs):
@@ -344,22 +457,36 @@ def render_unit(u):
             L.append(f"  type{attr}{ext} :: {d['name']}")
             L.append("    integer :: c")
             L.append(f"  end type {d['name']}")
+        elif d["kind"] == "generic" and d.get("body"):
+            L.append(f"  interface {d['name']}")
+            L += render_node(d["body"], "    ")
+            L.append("  end interface")
         elif d["kind"] == "generic":
             L.append(f"  interface {d['name']}")
             L.append(f"    module procedure {d['name']}s")
+            L.append("  end interface")
+        elif d["kind"] == "abs" and d.get("node"):
+            L.append("  abstract interface")
+            L += render_node(d["node"], "    ")
             L.append("  end interface")
         elif d["kind"] == "abs":
             L.append("  abstract interface")
             L.append(f"    subroutine {d['name']}()")
             L.append(f"    end subroutine {d['name']}")
             L.append("  end interface")
+        elif d["kind"] == "iface":
+            L.append("  interface")
+            L += render_node(d["node"], "    ")
+            L.append("  end interface")
     for c in u["calls"]:
         L.append(f"  call {c}()")
-    procs = [d for d in u["decls"] if d["kind"] == "proc"]
+    procs = [d for d in u["decls"] if d["kind"] == "proc" and not d.get("in_generic")]
     if procs:
         L.append("contains")
         for d in procs:
-            if d.get("specific_of"):
+            if d.get("node"):
+                L += render_node(d["node"], "  ")
+            elif d.get("specific_of"):
                 L.append(f"  subroutine {d['name']}(a)")
                 L.append("    integer :: a")
                 L.append(f"  end subroutine {d['name']}")
@@ -372,6 +499,36 @@ def render_unit(u):
                 L.append(f"  end subroutine {d['name']}")
     L.append(f"end {kw} {u['name']}")
     return "\n".join(L) + "\n"
+
+
+def render_node(nd, ind):
+    """a nested scope: a subroutine (module / internal procedure, or the body of an interface) with its USE
+    statements, declarations referencing use-associated names, calls, interface blocks and internal procedures"""
+    body = nd["kind"] != "routine"
+    args = [r["var"] for r in nd["refs"] if r["what"] != "call"] if body else []
+    L = [f"{ind}subroutine {nd['name']}({', '.join(args)})"]
+    for us in nd["uses"]:
+        L.append(f"{ind}  " + render_use(us))
+    for r in nd["refs"]:
+        if r["what"] == "type":
+            L.append(f"{ind}  type({r['id']}) :: {r['var']}")
+        elif r["what"] == "procptr":
+            L.append(f"{ind}  procedure({r['id']}){'' if body else ', pointer'} :: {r['var']}")
+    for c in nd["children"]:
+        if c["kind"] in ("ifbody", "absbody"):
+            L.append(f"{ind}  {'abstract ' if c['kind'] == 'absbody' else ''}interface")
+            L += render_node(c, ind + "    ")
+            L.append(f"{ind}  end interface")
+    for r in nd["refs"]:
+        if r["what"] == "call":
+            L.append(f"{ind}  call {r['id']}()")
+    inner = [c for c in nd["children"] if c["kind"] == "routine"]
+    if inner:
+        L.append(f"{ind}contains")
+        for c in inner:
+            L += render_node(c, ind + "  ")
+    L.append(f"{ind}end subroutine {nd['name']}")
+    return L
 
 
 def render_files(units):
@@ -394,6 +551,12 @@ def cpairs(l):
     return "[" + "; ".join(f"({cs(a)}, {cs(b)})" for a, b in l) + "]"
 
 
+def coq_uses(uses):
+    return "[" + "; ".join(
+        "U {} {} {}".format(cs(x["target"]), "None" if x["only"] is None else f"(Some {cpairs(x['only'])})",
+                            cpairs(x["renames"])) for x in uses) + "]"
+
+
 def coq_module(u):
     def kind(d):
         # a procedure pointer declared in a module is also an entry of the module's procedure
@@ -403,10 +566,17 @@ def coq_module(u):
         return COQ_KIND[d["kind"]]
     ds = "[" + "; ".join(f"D {cs(d['name'])} {kind(d)} {COQ_PERM[d['perm']]}" for d in u["decls"]) + "]"
     acc = "[" + "; ".join(f"({cs(n)}, {'true' if p else 'false'})" for n, p in u["access"]) + "]"
-    us = "[" + "; ".join(
-        "U {} {} {}".format(cs(x["target"]), "None" if x["only"] is None else f"(Some {cpairs(x['only'])})",
-                            cpairs(x["renames"])) for x in u["uses"]) + "]"
-    return f"Md {cs(u['name'])} {COQ_PERM[u['default']]} {ds} {acc} {us}"
+    us = coq_uses(u["uses"])
+    ns = []
+    for path, kinds, nd in nested_nodes(u):
+        if kinds and kinds[0] == "genblock":
+            # the generic block itself is not a scope: the body is a child of the module
+            cpath, ckinds = path[1:], kinds[1:]
+        else:
+            cpath, ckinds = path, kinds
+        locs = "[" + "; ".join(f"D {cs(r['var'])} KVar Public" for r in nd["refs"] if r["what"] != "call") + "]"
+        ns.append("Ns %s [%s] %s %s" % (coq_strs(cpath), "; ".join(COQ_NKIND[k] for k in ckinds), locs, coq_uses(nd["uses"])))
+    return f"Md {cs(u['name'])} {COQ_PERM[u['default']]} {ds} {acc} {us} [{'; '.join(ns)}]"
 
 
 def coq_graph(units):
@@ -432,8 +602,11 @@ def coq_obs(obs):
     refs = []
     for f in obs["refs"]:
         e = "None" if f["ent"] is None else f"(Some ({cs(f['ent'][0])}, {cs(f['ent'][1])}))"
-        refs.append("Rf %s %s %s %s" % (cs(f["unit"]), f["cls"], cs(f["id"]), e))
-    return "([%s],\n    [%s])" % (";\n     ".join(units), "; ".join(refs))
+        refs.append("Rf %s %s %s %s %s" % (cs(f["unit"]), coq_strs(f.get("path", [])), f["cls"], cs(f["id"]), e))
+    nested = []
+    for q in obs.get("nested", []):
+        nested.append("Nb %s %s [%s]" % (cs(q["unit"]), coq_strs(q["path"]), "; ".join(coq_table(t) for t in q["all"])))
+    return "([%s],\n    [%s],\n    [%s])" % (";\n     ".join(units), "; ".join(refs), ";\n     ".join(nested))
 
 
 def coq_case(units, groups):
